@@ -12,7 +12,7 @@ CONSTANTS
   MaxLive = %(maxlive)d
   AuxCounts = {%(aux)s}
 INVARIANTS TypeOK NoAlias HandedOutExact BigEnough ClassStable UnderExact AllBackAfterClearAll IdleBackAfterClearCache WarnImpliesWarned
-  AllBackAfterDestroy InstalledIffGlobal
+  AllBackAfterDestroy InstalledIffGlobal OneWarning NoNestedWarning
 PROPERTIES WarnOnce ReturnsOwned UnknownReleaseHarmless
 CHECK_DEADLOCK FALSE
 """
@@ -26,6 +26,10 @@ CONSTANTS
   D = %(D)d
   ForeignSizes = {%(fsizes)s}
   Kinds = {%(kinds)s}
+  MaxPre = %(maxpre)d
+  PreSizes = {%(presizes)s}
+  FixModes = {%(fix)s}
+  OutN = %(outn)d
 INVARIANTS Dump
 CHECK_DEADLOCK FALSE
 """
@@ -79,12 +83,14 @@ def boundary_sizes(bounds, extra=(0, 1, 1024)):
     return sorted(s)
 
 
-def random_exec(rng, nops, bounds, maxlive=24, kind="bare"):
+def random_exec(rng, nops, bounds, maxlive=24, kind="bare", prestrings=False):
     """Seeded random history of one kind of cache object.  bare: boundary-biased sizes, releases in arbitrary order with a
     (possibly different) size of the same class, foreign pointers, clears in between, now and then clearAll + destroy + a
     new cache; ends with clearAll.  global: buffers requested through the adaptor and by SimpleString objects, released in
     arbitrary order, now and then the global cache is destroyed with buffers still in use and constructed again; ends with
-    the destruction of the global cache while buffers are in use."""
+    the destruction of the global cache while buffers are in use.  prestrings: strings created before the global cache are destroyed /
+    assigned to / appended to while it is installed (releases of buffers the cache does not know), with or without a current test whose
+    output string predates the cache."""
     limit = bounds[-1]
     bs = boundary_sizes(bounds)
     glob = kind == "global"
@@ -101,10 +107,34 @@ def random_exec(rng, nops, bounds, maxlive=24, kind="bare"):
             return rng.choice([n, limit + 1, 1024, rng.randrange(limit + 1, 1025)])
         lo = max([b for b in bounds if b < c] + [-1]) + 1
         return rng.choice([n, lo, c, rng.randrange(lo, c + 1)])
-    ex, live, na, strs = [["gnew" if glob else "new", 0, 0]], {}, 0, set()
+    ex, live, na, strs = [], {}, 0, set()
+    pre, npre = set(), 0
+
+    def construct():
+        """(global) a few strings are created before the cache; the calls may run inside a test whose output string predates it too"""
+        nonlocal npre
+        if not glob:
+            ex.append(["new", 0, 0])
+            return
+        pre.clear()
+        if prestrings:
+            for _ in range(rng.randint(0, 4)):
+                npre += 1
+                pre.add(npre)
+                ex.append(["pnew", npre, rng.choice(bs[1:]) if rng.random() < 0.6 else rng.randrange(1, 400)])
+        ex.append(["gnew", 1 if prestrings and rng.random() < 0.6 else 0, 0])
+    construct()
     for _ in range(nops):
         r = rng.random()
-        if r < 0.45 and len(live) < maxlive:
+        if glob and pre and rng.random() < 0.04:
+            k = rng.choice(sorted(pre))
+            o = rng.choice(["pdel", "pdel", "pset", "pcat"])
+            if o == "pdel":
+                pre.discard(k)
+                ex.append(["pdel", k, 0])
+            else:
+                ex.append([o, k, rng.choice(bs[1:]) if rng.random() < 0.5 else rng.randrange(1, 300)])
+        elif r < 0.45 and len(live) < maxlive:
             n = rng.choice(bs) if rng.random() < 0.7 else rng.randrange(0, 1025)
             if rng.random() < 0.5 and live:       # stay in a class that is busy: interior unlinks, reuse
                 n = same_class_size(rng.choice(sorted(live.values())))
@@ -124,7 +154,7 @@ def random_exec(rng, nops, bounds, maxlive=24, kind="bare"):
         elif glob:
             if r > 0.97:                          # the global cache goes away while buffers are in use; a new one is installed
                 ex.append(["gdel", 0, 0])
-                ex.append(["gnew", 0, 0])
+                construct()
                 live = {}
         elif r < 0.90:
             ex.append(["foreign", rng.randrange(4), rng.choice(bs + [2000])])
@@ -144,10 +174,13 @@ def held_at_destroy(ex):
     """the execution destroys a global cache while at least one buffer obtained through it is still in use"""
     live = set()
     for op, a, n in ex:
+        a = int(a)
         if op in ("alloc", "snew"):
             live.add(a)
         elif op in ("dealloc", "sdel"):
             live.discard(a)
+        elif op in ("pset", "pcat"):
+            live.add(("p", a))
         elif op in ("clearall", "gnew", "new"):
             live = set()
         elif op == "gdel":
@@ -161,7 +194,17 @@ def run(ctx):
     quick = ctx.quick
     exe = ctx.build_harness("strcache", "asan")
 
+    crash_at = {}
+
     def key_fn(kind, ex, idx, observed):
+        # a script call may be several log lines: every line carries `sl', the index of its script call
+        if kind == "reject" and observed and "sl" in observed:
+            idx = observed["sl"]
+            ev = observed.get("op")
+            if idx < len(ex) and ev != ex[idx][0]:
+                return "%s:%s:%s:n=%s" % (kind, ex[idx][0], ev, observed.get("n"))
+        elif kind == "crash":
+            idx = crash_at.get("sl", idx)
         if idx < len(ex):
             return "%s:%s:n=%s" % (kind, ex[idx][0], ex[idx][2])
         return "%s:end" % kind
@@ -173,7 +216,18 @@ def run(ctx):
         return t, p
 
     def harness(bounds):
-        return lambda s, l: run_harness(ctx, [exe, "run", s, l] + [str(b) for b in bounds], l, timeout=900)
+        def go(s, l):
+            rc, out, to = run_harness(ctx, [exe, "run", s, l] + [str(b) for b in bounds], l, timeout=300)   # deadline
+            # where the run stopped (for the key of a crash): the script call after the last one logged in the last execution
+            last = -1
+            for e in read_log(l):
+                last = -1 if e.get("op") in ("reset", "end") else e.get("sl", last)
+            crash_at["sl"] = last + 1
+            return rc, out, to
+        return go
+
+    def conf(label, execs, bounds, t, p, **kw):
+        return conform(ctx, label, execs, harness(bounds), "Trace_StrCache", t, p, key_fn, end_op="end", **kw)
 
     if ctx.replay:
         rp = json.load(open(ctx.replay))
@@ -183,7 +237,7 @@ def run(ctx):
         ex = [l.split("\t") for l in rp["script"]]
         bounds = rp["meta"]["bounds"]
         t, p = cfgs(bounds, "replay")
-        conform(ctx, "replay", [ex], harness(bounds), "Trace_StrCache", t, p, key_fn, meta=rp["meta"])
+        conf("replay", [ex], bounds, t, p, meta=rp["meta"])
         return ctx.finish("replay of one recorded execution", 1)
 
     # ---- constants extraction: the class table of the code under test
@@ -212,37 +266,51 @@ def run(ctx):
     t, p = cfgs(bounds, "g")
     allsizes = ", ".join(map(str, boundary_sizes(bounds)))
     D = 5 if quick else 6                 # the first call of a behaviour constructs the cache object
+    nopre = {"maxpre": 0, "presizes": "1", "fix": "0", "outn": limit + 50}
+    unknown_under_global = set()
     for (lab, gen, sim, depth) in [
         ("bfs", {"classes": cl, "sizes": "%d, %d, %d" % (b0, b0 + 1, limit + 1), "maxlive": 3, "D": D,
-                 "fsizes": "%d, %d" % (b0 + 1, limit + 50), "kinds": '"bare"'}, None, None),
+                 "fsizes": "%d, %d" % (b0 + 1, limit + 50), "kinds": '"bare"', **nopre}, None, None),
         ("bfsg", {"classes": cl, "sizes": "%d, %d" % (b0, limit + 1), "maxlive": 3, "D": D,
-                  "fsizes": "0", "kinds": '"global"'}, None, None),
+                  "fsizes": "0", "kinds": '"global"', **nopre}, None, None),
+        # strings that predate the global cache (one or two), destroyed / appended to / assigned to under it, with and without a
+        # current test whose output string predates the cache; one ordinary size so that known and unknown releases interleave
+        ("bfsp", {"classes": cl, "sizes": "%d" % b0, "maxlive": 2, "D": D + 1, "fsizes": "0", "kinds": '"global"',
+                  "maxpre": 2, "presizes": "%d" % (b0 + 1), "fix": "0, 1", "outn": limit + 50}, None, None),
         ("sim", {"classes": cl, "sizes": allsizes, "maxlive": 8, "D": 40, "fsizes": "0, %d, %d, %d" % (b0, limit, limit + 50),
-                 "kinds": '"bare", "global"'}, 30 if quick else 300, 46),
+                 "kinds": '"bare", "global"', "maxpre": 3, "presizes": "1, %d, %d, %d" % (b0, b0 + 1, limit + 1), "fix": "0, 1",
+                 "outn": limit + 50}, 30 if quick else 300, 160),
     ]:
         g = ctx.tlc("Gen_StrCache", ctx.write_cfg("Gen_StrCache_" + lab, GEN % gen), workers=8, simulate=sim, depth=depth, timeout=1800, heap="8g")
         execs = [[[st["op"], st["a"], st["n"]] for st in h] for h in g.beh]
         if not execs:
             raise Infra("no behaviours generated by " + lab)
         ctx.sample({"source": "TLC " + lab, "execution": ["\t".join(map(str, l)) for l in execs[ctx.rng.randrange(len(execs))]][:14]})
-        conform(ctx, lab, execs, harness(bounds), "Trace_StrCache", t, p, key_fn, meta=meta, tlc_timeout=1800)
+        conf(lab, execs, bounds, t, p, meta=meta, tlc_timeout=1800)
         ctx.evaluations += sum(len(e) for e in execs)
         for e in execs:
-            if any(l[0] in ("dealloc", "sdel", "foreign", "clearcache") for l in e) or held_at_destroy(e):
+            if any(l[0] in ("dealloc", "sdel", "foreign", "clearcache", "pdel", "pset", "pcat") for l in e) or held_at_destroy(e):
                 nontrivial.add(json.dumps(e))
+            if any(l[0] in ("pdel", "pset", "pcat") for l in e):
+                unknown_under_global.add(json.dumps(e))
             if held_at_destroy(e):
                 destroyed_in_use.add(json.dumps(e))
 
     # ---- leg 3: long seeded random histories on the real cache, validated against the specification
     nexec, nops = (8, 400) if quick else (50, 2000)
-    execs = [random_exec(ctx.rng, nops, bounds, kind=("bare", "global")[i % 2]) for i in range(nexec)]
+    execs = [random_exec(ctx.rng, nops, bounds, kind=("bare", "global")[i % 2], prestrings=(i % 4 == 1)) for i in range(nexec)]
     ctx.sample({"source": "seeded random driver", "execution": ["\t".join(map(str, l)) for l in execs[0][:14]]})
-    conform(ctx, "random", execs, harness(bounds), "Trace_StrCache", t, p, key_fn, meta=meta, tlc_timeout=2400)
+    conf("random", execs, bounds, t, p, meta=meta, tlc_timeout=2400)
     ctx.evaluations += sum(len(e) for e in execs)
     for e in execs:
         nontrivial.add(json.dumps(e[:60]))
         if held_at_destroy(e):
             destroyed_in_use.add(json.dumps(e[:60]))
+        if any(l[0] in ("pdel", "pset", "pcat") for l in e):
+            unknown_under_global.add(json.dumps(e[:60]))
+    ctx.notes["executions_releasing_unknown_buffers_to_a_global_cache"] = len(unknown_under_global)
+    if not unknown_under_global:
+        raise Infra("no generated execution releases a buffer the cache does not know while a global cache is installed")
     ctx.notes["executions_destroying_a_global_cache_with_buffers_in_use"] = len(destroyed_in_use)
     if not destroyed_in_use:
         raise Infra("no generated execution destroys a global cache while buffers are in use")
@@ -251,8 +319,8 @@ def run(ctx):
              "simulation to depth 40 over the sizes b-1, b, b+1 around every measured class bound, 0, 1, 1024, both kinds) plus seeded random "
              "histories (sizes 0..1024, alternately bare / global), each run on the real SimpleStringInternalCache (bare) or the real "
              "GlobalSimpleStringCache + SimpleStringCacheAllocator + SimpleString objects (global) over a recording allocator under ASan/UBSan; "
-             "distinct = distinct call sequences; non-trivial = contains a release, a foreign release, a clearCache, or the destruction of a "
-             "global cache with buffers still in use",
+             "distinct = distinct call sequences; non-trivial = contains a release, a foreign release, a clearCache, an operation on a "
+             "string that predates the global cache, or the destruction of a global cache with buffers still in use",
         distinct_nontrivial=len(nontrivial), exhaustive=False,
         assumptions=["the class table (bounds %s) is measured from the code: class = maximal run of sizes a fresh cache keeps after release and serves with the same capacity" % bounds,
                      "releases use a size of the class the buffer was requested in (the property's quantifier); cross-class wrong sizes and double releases are not generated",
@@ -260,7 +328,8 @@ def run(ctx):
                      "destroyed = the GlobalSimpleStringCache (cache + adaptor + installation) goes away, with or without buffers in use; a bare "
                      "SimpleStringInternalCache leaves clearing to its owner: its destruction is only exercised after clearAll (its destructor "
                      "returns no block by itself, and its class table comes from the default malloc allocator, not the underlying one)",
-                     "under a global cache the release of a foreign pointer is not exercised (the warning text is itself built from SimpleStrings "
-                     "served by the same cache); clearCache / clearAll of a global cache are not reachable from outside",
-                     "SimpleString objects are created from a C string (one buffer request of strlen+1 bytes) and destroyed; growing a string in "
-                     "place (two cache calls in one SimpleString call) is not exercised"])
+                     "under a global cache the unknown releases are those of strings created before the cache (destroyed, assigned to, appended to "
+                     "while it is installed), with the warning printed to the console or appended to a test output string that predates the cache "
+                     "too (an unknown release while the warning is printed); every call the adaptor receives during such a script call is one "
+                     "validated event; clearCache / clearAll of a global cache are not reachable from outside",
+                     "a run that does not finish within 300 s or dies of a signal (stack exhaustion by a self-printing warning) is a divergence"])
